@@ -109,6 +109,7 @@ def register(reg):
     _register_store2(reg)
     _register_write(reg)
     _register_write2(reg)
+    _register_api_write(reg)
 
 
 def _register_nodes(reg):
@@ -755,7 +756,8 @@ def set_cases(E, ctx):
     # the argument list may be modified in place; in callee mode it is poisoned instead of havoced (see make)
     mods = [db] + ([ctx.node] if (unit_mode and isinstance(ctx.node, ListObj)) else [])
     return [Case("updated", ensures=ens if unit_mode else None, make=None if unit_mode else make, post=post, modifies=mods),
-            Case("missing-node", raises=KeyError, post=post, modifies=mods)]
+            Case("missing-node", raises=KeyError, post=post, modifies=mods,
+                 make=None if unit_mode else (lambda: ExcObj(KeyError, (objs.hash32(E, "missing"),))))]
 
 
 def _key_pair_facts_hex(E, K, q, D):
@@ -922,7 +924,8 @@ def del_cases(E, ctx):
         return HM.materialize(E, Dn)
     mods = [db] + ([ctx.node] if (unit_mode and isinstance(ctx.node, ListObj)) else [])
     return [Case("updated", ensures=ens if unit_mode else None, make=None if unit_mode else make, modifies=mods),
-            Case("missing-node", raises=KeyError, modifies=mods)]
+            Case("missing-node", raises=KeyError, modifies=mods,
+                 make=None if unit_mode else (lambda: ExcObj(KeyError, (objs.hash32(E, "missing"),))))]
 
 
 def _merged_path_facts(E, Dn, q, K):
@@ -951,3 +954,93 @@ def _register_write2(reg):
                         requires=norm_requires, props=("C01", "C02")))
     reg.add(g, Contract(H + "_delete", ["self", "node", "trie_key"], del_cases, setup=del_setup,
                         requires=del_requires, props=("C01",)))
+
+
+# ---------------------------------------------------------------------------------------------------
+# _set_root_node, set, delete (non-pruning trie; the pruning bookkeeping is the subject of C06)
+
+def setroot_setup(E):
+    t, node, D = wf_node_setup(E, pruning=False)
+    return {"self": t, "root_node": node}
+
+
+def setroot_cases(E, ctx):
+    s = ctx.self
+    db = s.fields["db"]
+    D = HM.alpha(ctx.root_node)
+    enc = z3.simplify(HM.rlpenc(D))
+    blank = HNode.is_HBlank(D)
+    BNH = HM.blank_node_hash(E)
+    want = z3.If(blank, BNH, specfn.keccak(enc))
+    x = z3.Const("x!grow", SeqI)
+
+    def post():
+        return [("root-hash-is-the-hash-of-the-root-node", ops.py_eq(s.fields["root_hash"], SSeq(want, "bytes"))),
+                ("store-only-grows", mk_bool(z3.ForAll([x], z3.Implies(z3.Select(ctx.old_has(db), x), z3.And(
+                    z3.Select(db.has, x), z3.Select(db.val, x) == z3.Select(ctx.old_val(db), x))),
+                    patterns=[z3.Select(db.has, x), z3.Select(db.val, x)]))),
+                ("root-available", mk_bool(z3.Or(blank, z3.Select(db.has, want))))]
+
+    def make_post():
+        # callee mode: the new root hash denotes the node that was passed
+        if not hasattr(ctx, "outcome"):
+            e = HM.x_encode_raw(E, ctx.root_node)
+            E.keccak(e)
+        return post()
+    return [Case("root-set", returns=lambda: None, post=make_post, modifies=[db, (s, "root_hash")])]
+
+
+def setroot_requires(E, ctx):
+    D = HM.alpha(ctx.root_node)
+    HM.unfold_wf(E, D)
+    return [("well-formed", mk_bool(HM.hwfp(D)))]
+
+
+def api_write_setup(with_value):
+    def setup(E):
+        t = write_trie(E, pruning=False)
+        E.ghost["hex_value_slots"] = True
+        args = {"self": t, "key": E.fresh_seq("key", "bytes")}
+        if with_value:
+            args["value"] = E.fresh_seq("value", "bytes")
+        q0 = HM.nibs(E, "q0")
+        E.ghost["q0"] = q0.t
+        return args
+    return setup
+
+
+def api_write_cases(kind):
+    def cases(E, ctx):
+        from contracts.nibbles_c import B2N
+        s = ctx.self
+        db = s.fields["db"]
+        old_root = HM.bytes_of(ctx.old_field(s, "root_hash"))
+        Dold = node_of_root(E, old_root)
+        K = B2N(ops.seq_term_as(ctx.key, "int"))
+        V = HM.bytes_of(ctx.value) if kind == "set" else z3.Empty(SeqI)
+
+        def post_ok():
+            new_root = HM.bytes_of(s.fields["root_hash"])
+            Dnew = node_of_root(E, new_root)
+            q = E.ghost["q0"]
+            for (Dres, fn, Dsrc) in E.ghost.get("hview_rules2", []):
+                E.assume(mk_bool(fn(q)))
+            return [("view", mk_bool(HM.hlk(Dnew, q) == z3.If(q == K, V, HM.hlk(Dold, q))))]
+        return [Case("updated", returns=lambda: None, post=post_ok, modifies=[db, (s, "root_hash")]),
+                Case("missing-node", raises=objs.exc(E, "MissingTrieNode"), modifies=[db])]
+    return cases
+
+
+def _register_api_write(reg):
+    H = HEX + ":HexaryTrie."
+    reg.add("hexary_store", Contract(H + "_set_root_node", ["self", "root_node"], setroot_cases, setup=setroot_setup,
+                                     requires=setroot_requires, props=("C01", "C02", "C04")))
+    g = "hexary_api"
+    reg.add(g, Contract(H + "set", ["self", "key", "value"], api_write_cases("set"), setup=api_write_setup(True),
+                        props=("C01",)))
+    reg.add(g, Contract(H + "delete", ["self", "key"], api_write_cases("delete"), setup=api_write_setup(False),
+                        props=("C01",)))
+    reg.add(g, Contract(H + "__setitem__", ["self", "key", "value"], api_write_cases("set"), setup=api_write_setup(True),
+                        props=("C01",)))
+    reg.add(g, Contract(H + "__delitem__", ["self", "key"], api_write_cases("delete"), setup=api_write_setup(False),
+                        props=("C01",)))
